@@ -63,7 +63,9 @@ def _dump(ir, g, intern):
     ns = []
     for n in g:
         ins = [intern(iv.name) for iv in n.inputs if iv is not None]
-        ns.append((n.op_type, ins, caps(n), [intern(o.name) for o in n.outputs]))
+        dom = getattr(n, "domain", "") or ""
+        op = n.op_type if dom in ("", "ai.onnx") else f"{dom}::{n.op_type}"      # only default-domain nodes are ONNX operators
+        ns.append((op, ins, caps(n), [intern(o.name) for o in n.outputs]))
     return ns, [intern(o.name) for o in g.outputs]
 
 
@@ -148,7 +150,8 @@ def tie_orphan_pass(ctx, n_cases):
             out = ir.val(f"v{k}", ir.DataType.FLOAT, (2, 2))
             kind = rng.random()
             if kind < 0.55:
-                n = ir.Node("", "Transpose", [rng.choice(vals)], outputs=[out], name=f"n{k}",
+                # (now and then a custom-domain node that merely is NAMED Transpose: not an ONNX operator)
+                n = ir.Node("custom" if rng.random() < 0.15 else "", "Transpose", [rng.choice(vals)], outputs=[out], name=f"n{k}",
                             attributes=[ir.Attr("perm", ir.AttributeType.INTS, [1, 0])])
             elif kind < 0.8:
                 n = ir.Node("", "Relu", [rng.choice(vals)], outputs=[out], name=f"n{k}")
@@ -226,7 +229,7 @@ def tie_idreshape_pass(ctx, n_cases):
                 q = rng.random()
                 oshape = tuple(abs(t) or 1 for t in tgt) if q < 0.6 else (None if q < 0.85 else (6,))
                 out = mk(f"v{k}", oshape)
-                n = ir.Node("", "Reshape", [data, cst], outputs=[out], name=f"n{k}")
+                n = ir.Node("custom" if rng.random() < 0.12 else "", "Reshape", [data, cst], outputs=[out], name=f"n{k}")
             elif kind < 0.85:
                 src = rng.choice(vals)
                 out = mk(f"v{k}", None if src.shape is None else tuple(src.shape.dims))
